@@ -957,6 +957,9 @@ fn do_xargs(args: &[&str]) -> Result<CommandResult, XargsError> {
                 .short('i')
                 .num_args(0..=1)
                 .require_equals(true)
+                // A bare -i must still get a position on the command line:
+                // clap records indices per value, and the last of -L/-n/-i wins.
+                .default_missing_value("{}")
                 .value_parser(clap::value_parser!(String))
                 .value_name("R")
                 .help("If R is specified, the same as -I R; otherwise, the same as -I {}"),
